@@ -150,6 +150,9 @@ def first_order_match(pat, t, inst=None):
                             pat.head.T.match_incr(t.fun.get_type(), inst.tyinst)
                         except TypeMatchException:
                             raise MatchException(trace)
+                        # The head must not capture a variable standing for a binder
+                        if bd_vars and t.fun.has_vars(bd_vars):
+                            raise MatchException(trace)
                         inst[pat.head.name] = t.fun
                         match(pat.arg, t.arg)
                     else:
